@@ -8,14 +8,14 @@ TB = ("trusted base: CPython, networkx, Hypothesis, sqlfluff's lexer/parser (dec
       "reference model in the property's module under vlib/props/")
 CHECKS = {
  "C03": dict(cat="exploration", tech="bounded-exhaustive history enumeration + Hypothesis random SQL scripts against a set-based reference model",
-    text="Every history of <=3 (quick) / <=4 (thorough) abstract statements over 3 tables (64k / 2.6M) is folded by the real code and compared with an independent model of edges and source/target/intermediate roles; random 2-8 statement scripts in real SQL are compared with the same model. Complete within the bound, sampled beyond it.",
+    text="Every history of <=3 (quick) / <=4 (thorough) abstract statements over 3 tables (64k / 2.6M) is folded by the real code and compared with an independent model of edges and source/target/intermediate roles; random 2-8 statement scripts in real SQL are compared with the same model. Complete within the bound, sampled beyond it. A third stream enumerates every (statement, statement) prefix x every ordered pair of RENAME pairs in one statement (left-to-right semantics).",
     ref="DESIGN.md section 4 C03"),
 }
 CHECKS["C15"] = dict(cat="exploration", tech="deterministic baton scheduler over real threads: exhaustive interleaving enumeration (stateless DFS) + Hypothesis random schedules against a per-thread scope-stack model",
-    text="All sub-operation interleavings of all pairs of <=2-operation thread programs are executed with real threads under a scheduler the harness owns, plus pre-emption-bounded 3-operation pairs, random 2-3 thread schedules with thread-identifier reuse, the real singleton end to end, and every documented value form for coercion; after every step every live thread's read of every key is compared with a reference model. Complete within the stated bounds only.",
+    text="All sub-operation interleavings of all pairs of <=2-operation thread programs are executed with real threads under a scheduler the harness owns, plus pre-emption-bounded 3-operation pairs, random 2-3 thread schedules with thread-identifier reuse, the real singleton end to end, and every documented value form for coercion; after every step every live thread's read of every key is compared with a reference model. Complete within the stated bounds only. A boundary stream checks that a lazily evaluated runner built on one side of a scope / thread boundary and evaluated on the other sees the configuration in effect where and when it is evaluated.",
     ref="DESIGN.md section 4 C15")
 CHECKS["C17"] = dict(cat="exploration", tech="bounded-exhaustive path enumeration against a scratch tree with marker files; disclosure oracle on WSGI responses",
-    text="Every path of <=4 (quick) / <=5 (thorough) segments over the adversarial segment alphabet, absolute and relative, is sent to every route of the WSGI app; any marker token or directory listing from outside the route's root is a violation. Exhaustive within the bound (1.2M / 20M requests).",
+    text="Every path of <=4 (quick) / <=5 (thorough) segments over the adversarial segment alphabet, absolute and relative, is sent to every route of the WSGI app; any marker token or directory listing from outside the route's root is a violation. Exhaustive within the bound (1.2M / 20M requests). Home spellings (~, $HOME, %7E; HOME outside the roots) and the root setting '.' with the process inside it are enumerated too.",
     ref="DESIGN.md section 4 C17")
 CHECKS["C05"] = dict(cat="exploration", tech="Hypothesis script assembly with separator/comment noise; splitter oracle + differential against per-statement analysis combined through SQLLineageHolder.of",
     text="Scripts of 1-5 calibrated corpus statements joined by every separator/noise variant (semicolons in comments and literals, comment-only statements, tsql no-semicolon mode) must report exactly the generated statements in order and the same tables, edges and column paths as the combination of the statements analysed alone. Sampled (2k quick / 30k thorough scripts).",
@@ -24,19 +24,19 @@ CHECKS["C07"] = dict(cat="exploration", tech="metamorphic testing: lexer-driven 
     text="Each corpus statement (test-suite SQL in its dialect + TPC-DS) is rewritten at token level (whitespace, inserted comments, case of unquoted words, quoting of lower-case identifiers, trailing semicolons) and must give the same tables and column pairs. Quick samples 1-8 random edits per case plus all-sites-at-once; thorough enumerates every single-site rewrite.",
     ref="DESIGN.md section 4 C07")
 CHECKS["C10"] = dict(cat="exploration", tech="structure-aware mutation fuzzing (Hypothesis) with exception-type oracle and call-site bucketing; silent-mode differential",
-    text="Mutated corpus statements (token delete/duplicate/swap/insert of SQL, quoting and templating metacharacters, cross-over, truncation, bracket nesting) under all 29 dialects must end in a result or a library exception; parser-rejected single statements must be InvalidSyntaxException; silent mode must equal the script without the unsupported statement and warn. Sampled; biased to near-valid SQL.",
+    text="Mutated corpus statements (token delete/duplicate/swap/insert of SQL, quoting and templating metacharacters, cross-over, truncation, bracket nesting) under all 29 dialects must end in a result or a library exception; parser-rejected single statements must be InvalidSyntaxException; silent mode must equal the script without the unsupported statement and warn. Sampled; biased to near-valid SQL. Also about 190 hand-written dialect-specific statement forms under every dialect in every run, and further accessors of the same runner after the first one raised.",
     ref="DESIGN.md section 4 C10")
 CHECKS["C11"] = dict(cat="exploration", tech="differential across fresh interpreter processes with different PYTHONHASHSEED + permuted/repeated accessor calls; corpus and Hypothesis-generated set-heavy scripts",
     text="Every corpus case (with its dialect and metadata), TPC-DS script and generated set-heavy script is dumped canonically in separate interpreters under 4 (quick) / 32 (thorough) hash seeds and under permuted, repeated accessor orders; all dumps must be identical (anonymous subquery names canonicalised, exports compared as sets). Sampled inputs; the hash-seed dimension is sampled too.",
     ref="DESIGN.md section 4 C11")
 CHECKS["C12"] = dict(cat="exploration", tech="Hypothesis-generated run histories executed in pristine forked processes against per-run baselines from fresh processes; fault injection through the provider extension point; threaded batches",
-    text="Histories of 2-12 runs (shared default / long-lived / fresh / faulty providers, scripts failing at each position, config scopes, tsql split cache) run in one pristine process; after every run the observation must equal the run's baseline from a fresh process and providers must answer like fresh ones. 16-thread batches are compared with sequential baselines (OS scheduler: weak evidence). Sampled histories.",
+    text="Histories of 2-12 runs (shared default / long-lived / fresh / faulty providers, scripts failing at each position, config scopes, tsql split cache) run in one pristine process; after every run the observation must equal the run's baseline from a fresh process and providers must answer like fresh ones. 16-thread batches are compared with sequential baselines (OS scheduler: weak evidence). Sampled histories. The long-lived provider is reused in both bundled kinds (dict-backed and SQLAlchemy on in-memory sqlite).",
     ref="DESIGN.md section 4 C12")
 CHECKS["C01"] = dict(cat="exploration", tech="grammar-based generation from a typed SQL IR (bounded-exhaustive skeleton product + Hypothesis random statements) against an independent reference table semantics, per accepting dialect, with a parse-shape guard",
-    text="Statements are IR values, so the expected source/target tables are known without asking sqllineage; every combination of statement kind x FROM shape x subquery position x nesting (thorough: all, under all 28 dialects that accept it; quick: a seeded fifth under ansi + 2 rotating dialects) plus random statements to depth 2-3 must report exactly the expected tables. Complete within the skeleton bound, sampled beyond.",
+    text="Statements are IR values, so the expected source/target tables are known without asking sqllineage; every combination of statement kind x FROM shape x subquery position x nesting (thorough: all, under all 28 dialects that accept it; quick: a seeded fifth under ansi + 2 rotating dialects) plus random statements to depth 2-3 must report exactly the expected tables. Complete within the skeleton bound, sampled beyond. Also: statement styles only some dialects have (TEMPORARY / MATERIALIZED / REPLACE INTO ...) under every accepting dialect, dialect-specific statements (COPY, directory targets, path sources, UPDATE JOIN, partition exchange, quoted multi-part names) as text templates, and probes of subquery positions outside the product (each a listed finding, with controls).",
     ref="DESIGN.md section 4 C01")
 CHECKS["C02"] = dict(cat="exploration", tech="grammar-based generation from a typed SQL IR (bounded-exhaustive skeleton product + Hypothesis random statements) against an independent scope-resolution reference semantics for column dataflow",
-    text="Every combination of select-item kind x scope shape x nesting x set-operation arity x explicit column list (2.4k skeletons; quick: a seeded fifth) and random statements to expression depth 3 must report exactly the (root, target column) pairs the IR's dataflow gives, per accepting dialect. The generator is restricted to where the property determines the answer; known-defect shapes are excluded by construction and replayed from the findings file.",
+    text="Every combination of select-item kind x scope shape x nesting x set-operation arity x explicit column list (2.4k skeletons; quick: a seeded fifth) and random statements to expression depth 3 must report exactly the (root, target column) pairs the IR's dataflow gives, per accepting dialect. The generator is restricted to where the property determines the answer; known-defect shapes are excluded by construction and replayed from the findings file. Also UPDATE ... FROM / MERGE ... USING statements (FROM shape x assignments x target alias, inner/outer name collisions, several WHEN clauses, expression-valued assignments as finding probes).",
     ref="DESIGN.md section 4 C02")
 CHECKS["C06"] = dict(cat="exploration", tech="invariant (validity-predicate) checking over every result of a generated + harvested result pool, through public accessors and the public graph assembler",
     text="Path well-formedness, leaf/root/table-level consistency and combined-graph retrievability/ownership invariants are evaluated on every result of the corpus (own dialect and ansi, with test metadata), TPC-DS and generated scripts. Sampled inputs, invariants complete per result.",
@@ -48,7 +48,7 @@ CHECKS["C18"] = dict(cat="exploration", tech="invariant (validity-predicate) che
     text="Unique ids, referential integrity of edges and compound parents, table nodes == summaries, column edges == hops of all reported paths, parent == owner, sorted duplicate-free text summary and route/runner agreement are evaluated on every result of the pool. Sampled inputs, invariants complete per result.",
     ref="DESIGN.md section 4 C18")
 CHECKS["C14"] = dict(cat="exploration", tech="metamorphic testing on the SQL IR: analysis under a default schema vs the IR with every unqualified table explicitly qualified; both mechanisms (scoped override, environment variable in fresh interpreters)",
-    text="For generated statements of every supported kind, C03-style scripts with DROP/RENAME and dialect-specific creation sites (vertica swap partitions, spark directory targets, legacy analyzer), the canonical dump under default schema S (lower/UPPER/Mixed/quoted, fresh or already used as qualifier) must equal the dump of the explicitly qualified IR; with no default, substituting the placeholder must give the same dump. Sampled.",
+    text="For generated statements of every supported kind, C03-style scripts with DROP/RENAME and dialect-specific creation sites (vertica swap partitions, spark directory targets, legacy analyzer), the canonical dump under default schema S (lower/UPPER/Mixed/quoted, fresh or already used as qualifier) must equal the dump of the explicitly qualified IR; with no default, substituting the placeholder must give the same dump. Sampled. Mechanisms also include the environment variable with a scoped override of another setting on top and a scoped default over a different environment default; a with-metadata stream has the tables known to the provider under the default schema's name.",
     ref="DESIGN.md section 4 C14")
 CHECKS["C04"] = dict(cat="exploration", tech="Hypothesis-generated multi-statement chains on the SQL IR; oracle = relational composition of the per-statement reference dataflows (with the session metadata earlier statements establish)",
     text="Scripts of 2-4 generated statements whose later statements read earlier targets (linear, diamond, fan-in/out, re-written intermediates, through derived tables) are analysed with and without a metadata provider; the reported paths (subquery columns removed) must be exactly the simple root->leaf paths of the composed per-statement reference graph, including star expansion and unqualified-column attribution from session metadata. Sampled.",
@@ -57,7 +57,7 @@ CHECKS["C08"] = dict(cat="exploration", tech="metamorphic testing on the SQL IR:
     text="Generated statements are compared with their alpha-renamed versions (names from fresh, MixedCase, keyword-like, unused-table and - as a finding probe - used-table pools), with aliases added/removed and with AS toggled; tables and end-to-end column pairs must be identical. Sampled.",
     ref="DESIGN.md section 4 C08")
 CHECKS["C13"] = dict(cat="exploration", tech="bounded-exhaustive knowledge assignments over shape templates + Hypothesis, against the metadata-aware reference semantics; differential with/without provider and between the two bundled providers",
-    text="Every shape template x every known/unknown assignment (with column-overlap patterns) over <=3 scope tables and the target is analysed with and without metadata: table lineage must not change, unknown-only statements must equal the no-provider result, column pairs must equal the metadata-aware reference model, and the dict-backed and SQLAlchemy (in-memory sqlite) providers must agree.",
+    text="Every shape template x every known/unknown assignment (with column-overlap patterns) over <=3 scope tables and the target is analysed with and without metadata: table lineage must not change, unknown-only statements must equal the no-provider result, column pairs must equal the metadata-aware reference model, and the dict-backed and SQLAlchemy (in-memory sqlite) providers must agree. Also multi-statement scripts (each template between extra write-only / read-only / DROP / feeding statements) judged on table lineage with and without provider, and known targets whose columns are the select list's names in another order.",
     ref="DESIGN.md section 4 C13")
 CHECKS["C16"] = dict(cat="exploration", tech="bounded-exhaustive spelling x position x dialect enumeration against a reference normalisation; Hypothesis on the normalisation helper and on equality/hash of model objects",
     text="Every case pattern x quote style x 1-3 name parts x syntactic position (FROM, target, column, qualifier, alias, INSERT list, CTE name, write-then-read chain) under 7 dialects covering the three quote styles must print the reference-normalised entity and connect chains; the helper must normalise well-formed spellings as specified; equal entities must hash equally.",
